@@ -14,7 +14,7 @@ ASSUME = c02.ASSUME[:4] + [
     "ASAP bound recomputed from observed predecessor dates; ALAP deadline = own/inherited end, else earliest successor start minus gap, else observed project end",
 ]
 
-PATTERNS = ["one20", "one90", "one600", "chain", "indep", "fork", "prio", "team", "gapchain", "nestends", "mid10", "mid25", "mid40", "mid50", "gaplen2h", "gaplen1d", "cgap", "mixgap", "mixgaplen", "mixonstart", "twosucc-a", "twosucc-b"]
+PATTERNS = ["one20", "one90", "one600", "chain", "indep", "fork", "prio", "team", "gapchain", "nestends", "mid10", "mid25", "mid40", "mid50", "gaplen2h", "gaplen1d", "cgap", "mixgap", "mixgaplen", "mixonstart", "twosucc-a", "twosucc-b", "mixpin"]
 
 
 def universe(tier):
@@ -26,8 +26,8 @@ def universe(tier):
                 for L in Ls:
                     for pat in PATTERNS:
                         for mode in ("asap", "palap", "talap", "talap-mid"):
-                            if pat == "mixonstart" and mode != "asap":
-                                continue   # on-start edges in backward mode are not claimed (C04's quantifier)
+                            if pat in ("mixonstart", "mixpin") and mode != "asap":
+                                continue   # on-start edges in backward mode are not claimed (C04's quantifier); mixpin has its own directions
                             for eff in ((1.0,) if tier == "quick" and pat not in ("one90", "chain") else (1.0, 0.7)):
                                 yield {"hk": hk, "days": days, "z": z, "L": L, "pat": pat, "mode": mode, "eff": eff}
     # gaplength at resolutions whose slot is not a binary fraction of an hour (sums of 1/6, 1/3, 1/12, 1/10, 1/60 h)
@@ -39,7 +39,7 @@ def universe(tier):
     for lv in c02.LEAVES:
         for pat in PATTERNS:
             for mode in ("asap", "palap", "talap", "talap-mid"):
-                if pat == "mixonstart" and mode != "asap":
+                if pat in ("mixonstart", "mixpin") and mode != "asap":
                     continue
                 yield {"hk": None, "days": None, "z": None, "L": 60, "pat": pat, "mode": mode, "eff": 1.0, "lv": lv}
 
@@ -82,6 +82,11 @@ def to_spec(it):
         # the dependency bound lies m minutes past the hour (a predecessor of m minutes on the other resource): inside a slot, and for
         # sub-hour resolutions not in the first slot of its clock hour; a lower-priority task on the same resource follows
         tasks = [{"id": "p", "effort": int(pat[3:]), "alloc": ["r2"]}, T("a", 90, deps=["p"]), T("low", 60, prio=300)]
+    elif pat == "mixpin":
+        # mixed directions: a backward anchor (alap + end), a task pulled backward by propagation, and a FORWARD-pinned task (asap +
+        # start) two dependency hops upstream that must stay forward; whole-slot efforts
+        tasks = [T("other", 180), T("prep", 240, sched="asap", start=c02._day(start, 1, "-09:00")), T("build", 240, deps=["prep"]),
+                 {"id": "ship", "effort": 240, "alloc": ["r2"], "sched": "alap", "end": c02._day(start, 11, "-17:00"), "deps": ["build"]}]
     elif pat.startswith("twosucc"):
         # one task with TWO successors, only one of the edges carries a gap and the other successor is the binding one (backward: the
         # deadline is the minimum over successors of start minus that successor's own gap); -a: the gapped successor is declared first
